@@ -454,6 +454,32 @@ def tlc_molecules(check, tier, share, tag):
     return recs
 
 
+def _forced_sharing(check, tier):
+    """every cut bond replaced by a shared atom (share = 1): atoms shared by three, four, five fragments, chains of
+    shared atoms - on the small branched molecules of the catalogue and on stars"""
+    from .. import molgen
+    rng = common.rng("c10forced")
+    smiles = ["CC(C)C", "CC(C)(C)C", "NC(C)(O)C", "CC(C)CC(C)C", "C1CC1C", "OCC(O)CO", "CS(=O)(=O)C", "CP(=O)(O)O"]
+    recs = []
+    for smi in smiles:
+        g = molgen.read_reference(smi)
+        n = g.number_of_nodes()
+        parts = [{a: i for i, a in enumerate(g.nodes)}]          # every atom its own block
+        parts += [molgen.random_partition(g, rng, rng.randint(2, n)) for _ in range(3 if tier == "quick" else 20)]
+        for pi, block in enumerate(parts):
+            # the all-singletons partition gets many base-graph numberings (the order of the hub among its
+            # neighbours matters), the others a few
+            for rep in range((40 if tier == "quick" else 200) if pi == 0 else 4):
+                cfg = molgen.make_cut_config(g, block, rng, share=1.0, share_hub=rep % 4 != 3)
+                if cfg is None:
+                    continue
+                r = cut_record(g, cfg, legacy=True)
+                r["smi"] = smi + " (all cuts shared)"
+                recs.append(r)
+    check.extra["forced_sharing_configs"] = len(recs)
+    return recs
+
+
 def run_c01(tier):
     check = Check("C01", tier=tier)
     check.rule = ("every molecule of <= 3 heavy atoms over C N O Cl with valence-feasible bond orders 1-3 x every partition into "
@@ -479,6 +505,7 @@ def run_c10(tier):
                   "ordinary descriptors); non-trivial = at least one shared atom")
     recs = _cut_records(check, tier, 0.6, "c10")
     recs += tlc_molecules(check, tier, 0.7, "c10mc")
+    recs += _forced_sharing(check, tier)
     verdicts = validate_with(check, recs)
     judge(check, "C10", recs, verdicts, nontrivial=lambda r, v: r.get("nshared", 0) > 0)
     check.extra["shared_configs"] = sum(1 for r in recs if r.get("nshared", 0) > 0)
